@@ -68,6 +68,18 @@ Theorem C35_regrid_convex : forall n_old n_new i : Z,
   (0 <= regrid_bindex n_old n_new i <= n_old - 2)%Z.
 Proof. exact regrid_frac_range. Qed.
 
+(* LOS with parallax errors: along the line the treatment of the sub-segments goes from "full weight" (up to
+   the near truncation distance lo) over "weighted by the survival function" to "dropped" (beyond the far
+   truncation distance hi), never back *)
+Theorem C35_los_parallax_regimes :
+  forall lo hi d1 d2 : Q, lo <= hi -> d1 <= d2 ->
+    (erf_regime lo hi d1 <= erf_regime lo hi d2)%nat /\
+    (d1 <= lo -> erf_regime lo hi d1 = 0%nat) /\ (hi < d2 -> erf_regime lo hi d2 = 2%nat).
+Proof.
+  intros lo hi d1 d2 H1 H2. split; [apply erf_regime_monotone; assumption|].
+  split; [intro H; apply (proj1 (erf_regime_spec lo hi d1)); assumption | apply (proj2 (erf_regime_spec lo hi d2))].
+Qed.
+
 (* non-vacuity: a 2-D case *)
 Example C35_interp_example :
   interp_value (MLnode (MLnode (MLconst 1) (MLconst 2)) (MLnode (MLconst 3) (MLconst 5))) [2; 7]%Z [1 # 4; 1 # 2]
